@@ -74,8 +74,8 @@ type Obs struct {
 }
 
 // the errno of a refused seccomp(2) (History.Refusal) and its code in the model's request (bits 3–5 of the first token)
-var refusalErrno = map[string]uint32{"EPERM": 1, "EACCES": 13, "ENOMEM": 12, "EAGAIN": 11, "ESRCH": 3, "EBUSY": 16}
-var refusalCode = map[string]int{"": 0, "EPERM": 1, "EACCES": 2, "ENOMEM": 3, "EAGAIN": 4, "ESRCH": 5, "EBUSY": 6}
+var refusalErrno = map[string]uint32{"EPERM": 1, "EACCES": 13, "ENOMEM": 12, "EAGAIN": 11, "ESRCH": 3, "EBUSY": 16, "EINTR": 4}
+var refusalCode = map[string]int{"": 0, "EPERM": 1, "EACCES": 2, "ENOMEM": 3, "EAGAIN": 4, "ESRCH": 5, "EBUSY": 6, "EINTR": 7}
 
 func policyFor(kind string) seccomp.Policy {
 	switch kind {
@@ -303,20 +303,30 @@ func child(h History) {
 		t0 := syscall.Gettid()
 		hookTids = []int{t0}
 		if migrate {
+			// Plain attempts first (sleep + yield while other Ps are busy).  Then a hand-off: a goroutine wires itself
+			// to the thread it first runs on — with a single P that is the thread this goroutine just left — and
+			// blocks there in a read(2) until released, so the P moves on to another thread and takes an unpinned
+			// goroutine with it (works with GOMAXPROCS=1 too; a goroutine that pinned itself stays where it is).
+			var pfd [2]int
+			handOff := false
 			for i := 0; i < 25 && syscall.Gettid() == t0; i++ {
-				if i%2 == 1 {
-					// hand-off: a goroutine wires itself to the thread it first runs on — with a single P that is
-					// the thread this goroutine just left — and blocks there in a system call, so the P moves on
-					// to another thread and takes an unpinned goroutine with it (works with GOMAXPROCS=1 too)
+				if i == 3 && syscall.Pipe(pfd[:]) == nil {
+					handOff = true
+					rd := pfd[0]
 					go func() {
 						runtime.LockOSThread()
-						ts := syscall.Timespec{Nsec: 3000000}
-						syscall.Nanosleep(&ts, nil)
+						var b [1]byte
+						syscall.Read(rd, b[:])
+						syscall.Close(rd)
 						runtime.UnlockOSThread()
 					}()
 				}
 				time.Sleep(100 * time.Microsecond)
 				runtime.Gosched()
+			}
+			if handOff {
+				syscall.Write(pfd[1], []byte{0})
+				syscall.Close(pfd[1])
 			}
 		}
 		hookTids = append(hookTids, syscall.Gettid())
@@ -351,7 +361,7 @@ func child(h History) {
 				migrate = true
 				// keep the other Ps busy so that the goroutine is likely to be rescheduled elsewhere
 				var busy int32 = 1
-				for i := 0; i < 3; i++ {
+				for i := 0; i < 3 && runtime.GOMAXPROCS(0) > 1; i++ {
 					go func() {
 						for atomic.LoadInt32(&busy) == 1 {
 						}
@@ -411,7 +421,7 @@ func child(h History) {
 			done := make(chan bool)
 			migrate = true
 			var busy int32 = 1
-			for i := 0; i < 3; i++ {
+			for i := 0; i < 3 && runtime.GOMAXPROCS(0) > 1; i++ {
 				go func() {
 					for atomic.LoadInt32(&busy) == 1 {
 					}
@@ -586,7 +596,7 @@ func genHistory(r *rand.Rand, profile string) History {
 	}
 	if profile == "load" && r.Intn(5) == 0 || profile == "tsync" && r.Intn(8) == 0 {
 		h.NoSeccomp = true
-		h.Refusal = []string{"", "", "EPERM", "EACCES", "ENOMEM", "ENOMEM", "EAGAIN", "ESRCH", "EBUSY"}[r.Intn(9)]
+		h.Refusal = []string{"", "", "EPERM", "EACCES", "ENOMEM", "ENOMEM", "EAGAIN", "ESRCH", "EBUSY", "EINTR", "EINTR"}[r.Intn(11)]
 	} else if (profile == "load" || profile == "nnp") && r.Intn(8) == 0 {
 		// only a privileged process can install the outer filter without setting the bit itself
 		h.NoNNP, h.Privileged = true, true
